@@ -221,6 +221,17 @@ fn run_episode_inner(sc: &scen::Scenario, p: &EpParams, shard: &mut ShardReport)
             r
         }
     };
+    // calls that never got a reply on the paused clock: the server wedged (C07), whatever the
+    // scenario was looking for
+    let no_replies: Vec<String> = std::mem::take(&mut *client::NO_REPLIES.lock().unwrap_or_else(|e| e.into_inner()));
+    if !no_replies.is_empty() {
+        let mut kinds: Vec<&str> = no_replies.iter().map(|s| s.as_str()).collect();
+        kinds.sort();
+        kinds.dedup();
+        r.viol("C07", format!("C07:Q-term:no-reply{{{}}}", kinds.join(",")), format!("{} call(s) got no reply within two virtual hours in scenario {}", no_replies.len(), p.scenario));
+        r.inconclusive(format!("server wedged during a {} episode (calls without reply)", p.scenario));
+        r.add("calls_without_reply", no_replies.len() as u64);
+    }
     let new_panics = world::panic_count() - panics_before;
     if new_panics > 0 {
         r.add("panics_observed", new_panics);
